@@ -93,7 +93,9 @@ def run(ctx: core.Ctx):
     lev = np.arange(size) * 5 + 3
     dl = xr.DataArray(np.arange(size * 4, dtype="float64").reshape(size, 2, 2), dims=("lev", "y", "x"), coords={"lev": lev})
     offs = [("time", da, pd.Timestamp("2000-01-05"), times), ("time", da, pd.Timestamp("1999-01-01"), times),
-            ("time", da, pd.Timestamp("2001-01-01"), times), ("lev", dl, 4, lev), ("lev", dl, -100, lev), ("lev", dl, 1000, lev)]
+            ("time", da, pd.Timestamp("2001-01-01"), times), ("lev", dl, 4, lev), ("lev", dl, -100, lev), ("lev", dl, 1000, lev),
+            # labels that are not even of the axis' type: a fractional label on an integer axis lies BETWEEN two steps (or outside)
+            ("lev", dl, 10.25, lev), ("lev", dl, 2.5, lev), ("lev", dl, 28.5, lev), ("lev", dl, 3.75, lev), ("lev", dl, -0.5, lev)]
     lines, refs = [], []
     for dim, d, lab, index in offs:
         for which in ("begin", "end"):
